@@ -22,6 +22,7 @@ RULES = [
     Rule('C08.R4', 'targets beyond the end rewind and return 0; replay starts from the rewound position', 3),
     Rule('C08.R5', 'the loop is treated as passed only for targets at or beyond the loop end', 1),
     Rule('C08.R6', 'the state reset that precedes the replay restores every channel field a channel event can change', 20),
+    Rule('C08.R7', 'rewind() restores every sequencer member that playback changes', 4),
 ]
 EXPLANATION = ('CFG order / dominance rules over opn2_positionSeek, BW_MidiSequencer::seek and processEvents. Thin claim: necessary conditions of "seek equals '
                'linear playback"; equality of position, controller state and subsequent events is not decided.')
@@ -181,6 +182,7 @@ def analyse(facts, tier):
     obls.append(Obl('C08.R5', sk.name, 'temporaryBroken = target >= loop end', tb[1] if tb else sk.loc, 'discharged' if ok else 'finding',
                     why=show(tb[0]) if ok else 'loop is marked as passed by %s: a target inside the loop makes the next loop end jump to the song start' % (show(tb[0]) if tb else 'nothing')))
     obls += r6(facts)
+    obls += r7(facts)
     return obls
 
 
@@ -238,4 +240,68 @@ def r6(facts):
         out.append(Obl('C08.R6', rs.name, 'channel field ' + fld, rs.loc, 'discharged' if ok else 'finding',
                        why='written by %s, restored by the reset' % h if ok else
                        '%s stores MIDIchannel::%s (%s) but the reset that precedes a replay never restores it: after a backward seek the channel keeps the value from later in the song' % (h, fld, loc.rsplit('/', 1)[-1])))
+    return out
+
+
+
+REWIND_EXEMPT = {'m_loopBeginPosition': 'set again when playback passes the loop start; it is only read after that point'}
+
+
+def seq_member_stores(facts, fn, depth=0, seen=None):
+    """direct members (m_*) of the sequencer that fn stores to, assigns through, or mutates by a member call, following sequencer methods"""
+    seen = seen if seen is not None else set()
+    out = {}
+    if fn.name in seen:
+        return out
+    seen.add(fn.name)
+    for b, j, st in fn.cfg.stmts():
+        for x in walk(st['s']):
+            ap = assign_parts(x)
+            tgt = ap[0] if ap else (x['e'] if is_incdec(x) else None)
+            roots = []
+            if tgt is not None:
+                roots.append(tgt)
+            cn = callee_name(x)
+            if x.get('obj') is not None and cn and not short(cn).startswith(('get', 'is', 'size', 'empty', 'begin', 'end', 'value', 'find', 'c_str', 'data')) and 'const' not in (x.get('quals') or ''):
+                if short(cn) in ('reset', 'clear', 'stackUp', 'stackDown', 'push_back', 'resize', 'swap', 'assign', 'erase'):
+                    roots.append(x['obj'])
+            for r0 in roots:
+                t = strip(r0)
+                last = None
+                while isinstance(t, dict):
+                    if t.get('k') == 'MemberExpr':
+                        last = t; t = strip(t['b'])
+                    elif t.get('k') == 'ArraySubscriptExpr':
+                        t = strip(t['b'])
+                    elif t.get('k') == 'CXXOperatorCallExpr' and short(t.get('callee', '')) in ('operator[]', 'operator*', 'operator->') and t.get('a'):
+                        t = strip(t['a'][0])
+                    else:
+                        break
+                if last is not None and isinstance(t, dict) and t.get('k') == 'CXXThisExpr' and (SEQ + '::m_') in last['n']:
+                    out.setdefault(short(last['n']), st['loc'])
+            if cn and depth < 2 and cn.startswith(SEQ + '::') and cn in facts.fns and short(cn) not in ('rewind', 'seek', 'loadMIDI'):
+                for k2, v2 in seq_member_stores(facts, facts.fns[cn][0], depth + 1, seen).items():
+                    out.setdefault(k2, v2)
+    return out
+
+
+def r7(facts):
+    out = []
+    written = {}
+    for h in ('handleEvent', 'processEvents', 'Tick'):
+        for fn in facts.fns.get(SEQ + '::' + h, []):
+            for fld, loc in seq_member_stores(facts, fn).items():
+                written.setdefault(fld, (h, loc))
+    rw = facts.fn(SEQ + '::rewind')
+    restored = seq_member_stores(facts, rw)
+    if len(written) < 4:
+        raise build.AnalysisBroken('C08.R7: only %d sequencer members found to be written during playback' % len(written))
+    for fld, (h, loc) in sorted(written.items()):
+        if fld in REWIND_EXEMPT:
+            out.append(Obl('C08.R7', rw.name, 'member ' + fld, rw.loc, 'assumed', why=REWIND_EXEMPT[fld], nontrivial=False))
+            continue
+        ok = fld in restored
+        out.append(Obl('C08.R7', rw.name, 'member ' + fld, rw.loc, 'discharged' if ok else 'finding',
+                       why='changed during playback (%s), restored by rewind()' % h if ok else
+                       '%s changes %s during playback (%s) but rewind() does not restore it: a seek, which replays from the rewound position, starts with the value from later in the song' % (h, fld, loc.rsplit('/', 1)[-1])))
     return out
